@@ -292,7 +292,7 @@ func runC18(c *Ctx) {
 			if pc.Fn() != fn {
 				return s, true
 			}
-			for _, f := range edgeFacts(from, si) {
+			for _, f := range pc.edgeFacts(from, si) {
 				if contParam != nil && f.X == ssa.Value(contParam) {
 					if b, ok := constBool(f.Y); ok && b == f.Eq {
 						s |= cont
@@ -383,7 +383,7 @@ func runC18(c *Ctx) {
 			return s
 		},
 		Edge: func(pc *PathCtx, s uint64, from *ssa.BasicBlock, si int) (uint64, bool) {
-			for _, f := range edgeFacts(from, si) {
+			for _, f := range pc.edgeFacts(from, si) {
 				if e, ok := f.X.(*ssa.Extract); ok && e.Tuple == ssa.Value(pb) && e.Index == 1 {
 					if b, ok := constBool(f.Y); ok && (b == f.Eq) == false {
 						s |= flagFalse
